@@ -84,6 +84,14 @@ type action struct {
 	Arg   string `json:"arg"`   // context class / outbound URL class
 	Entry string `json:"entry"` // allow-list class / outbound entry point
 	URL   string `json:"url"`   // concrete URL ({PLAIN} is replaced by the address of the local plain HTTP server)
+	// JSON-LD context that is NEAR an allow-list entry without being one: Arg is the relation, Anchor the kind of entry (remote-mapped |
+	// mapped-only | operator), URL a template over the entry ({ENTRY} {ENTRYNOSCHEME} {PARENT} {CHOP} {ORIGIN} {M}), Need what the
+	// template needs of the entry (comma separated: pathless | path | https), Variant which of the fitting entries is taken.
+	// The entries come from the configuration of the real engine (jsonld.DefaultContextConfig + Operator).
+	Anchor   string   `json:"anchor,omitempty"`
+	Need     string   `json:"need,omitempty"`
+	Variant  int      `json:"variant,omitempty"`
+	Operator []string `json:"operator,omitempty"` // entries the operator adds to jsonld.contexts.remoteallowlist (jsonld layer)
 }
 
 type tcase struct {
@@ -105,6 +113,7 @@ type actResult struct {
 	Dials    []string `json:"dials"`
 	Requests []reqRec `json:"requests"`
 	Plain    bool     `json:"plain"` // a plain-HTTP request left the node
+	NearTo   string   `json:"near_to,omitempty"` // the allow-list entry a near-miss context URL was derived from
 }
 
 type result struct {
@@ -209,6 +218,9 @@ type actors struct {
 	early map[string]core.HTTPRequestDoer
 	id    string
 	n     int // index of the action within the case
+	// the JSON-LD context configuration of the engine behind loader, and the entries of it the operator added
+	contexts jsonld.ContextsConfig
+	operator []string
 }
 
 func doGet(ctx context.Context, doer core.HTTPRequestDoer, u string) error {
@@ -250,6 +262,75 @@ func (w *world) dummyVP() vc.VerifiablePresentation {
 		Proof: []interface{}{dummy.Proof{Type: dummy.NoSignatureType, Initials: "I", Prefix: "von", FamilyName: "Dummy", Email: "tester@example.com",
 			Contract: w.contract}},
 	}
+}
+
+// nearContextURL concretises a near-miss context URL relative to an entry of the allow-list the real engine is configured with.
+func nearContextURL(a action, cfg jsonld.ContextsConfig, operator []string, marker string) (string, string, error) {
+	remote := map[string]bool{}
+	for _, u := range cfg.RemoteAllowList {
+		remote[u] = true
+	}
+	isOperator := map[string]bool{}
+	for _, u := range operator {
+		isOperator[u] = true
+	}
+	var pool []string
+	switch a.Anchor {
+	case "remote-mapped":
+		for u := range cfg.LocalFileMapping {
+			if remote[u] && !isOperator[u] {
+				pool = append(pool, u)
+			}
+		}
+	case "mapped-only":
+		for u := range cfg.LocalFileMapping {
+			if !remote[u] {
+				pool = append(pool, u)
+			}
+		}
+	case "operator":
+		pool = append(pool, operator...)
+	}
+	sort.Strings(pool)
+	var fit []string
+	for _, e := range pool {
+		pu, err := url.Parse(e)
+		if err != nil || pu.Host == "" {
+			continue
+		}
+		ok := true
+		for _, need := range strings.Split(a.Need, ",") {
+			switch need {
+			case "pathless":
+				ok = ok && pu.Path == "" && pu.RawQuery == ""
+			case "path":
+				ok = ok && strings.Trim(pu.Path, "/") != ""
+			case "https":
+				ok = ok && pu.Scheme == "https"
+			}
+		}
+		if ok {
+			fit = append(fit, e)
+		}
+	}
+	if len(fit) == 0 {
+		return "", "", fmt.Errorf("no %s allow-list entry fits %q (entries: %v)", a.Anchor, a.Need, pool)
+	}
+	entry := fit[a.Variant%len(fit)]
+	pu, _ := url.Parse(entry)
+	parent := entry
+	if i := strings.LastIndex(strings.TrimSuffix(entry, "/"), "/"); i > len(pu.Scheme)+2 {
+		parent = entry[:i]
+	}
+	u := strings.NewReplacer("{ENTRYNOSCHEME}", strings.TrimPrefix(entry, pu.Scheme+"://"), "{ENTRY}", entry, "{PARENT}", parent,
+		"{CHOP}", entry[:len(entry)-1], "{ORIGIN}", pu.Scheme+"://"+pu.Host, "{M}", marker).Replace(a.URL)
+	if u == entry || remote[u] || isOperator[u] {
+		return "", "", fmt.Errorf("template %q over %s yields an allow-list entry", a.URL, entry)
+	}
+	if _, ok := cfg.LocalFileMapping[u]; ok {
+		return "", "", fmt.Errorf("template %q over %s yields a localmapping key", a.URL, entry)
+	}
+	return u, entry, nil
 }
 
 var nonAlnum = regexp.MustCompile(`[^a-z0-9]`)
@@ -305,13 +386,23 @@ func (w *world) perform(a action, x actors) (res actResult) {
 				}
 			}
 		} else {
-			want := ""
+			want, target, local := "", "", true
 			if pu, err := url.Parse(res.URL); err == nil {
-				want = pu.Path
+				want, target = pu.Path, strings.ToLower(pu.Hostname())
+				ip := net.ParseIP(target)
+				local = ip != nil && ip.IsLoopback()
 			}
-			res.Dials = dials
+			if a.Kind != "jsonld" {
+				res.Dials = dials
+			}
+			for _, d := range dials {
+				// JSON-LD: a connection attempt to the host the context URL names belongs to this action
+				if h, _, err := net.SplitHostPort(d); a.Kind == "jsonld" && err == nil && strings.ToLower(h) == target {
+					res.Dials = append(res.Dials, d)
+				}
+			}
 			for _, q := range requests {
-				if a.Kind != "jsonld" || q.Path == want {
+				if a.Kind != "jsonld" || (local && q.Path == want) || (!local && strings.ToLower(hostOnly(q.Host)) == target) {
 					res.Requests = append(res.Requests, q)
 				}
 			}
@@ -361,6 +452,15 @@ func (w *world) perform(a action, x actors) (res actResult) {
 			res.Verdict = "refused"
 		}
 	case "jsonld":
+		if a.Anchor != "" && a.Anchor != "none" {
+			marker := fmt.Sprintf("m%sx%d", nonAlnum.ReplaceAllString(strings.ToLower(x.id), ""), x.n)
+			var u string
+			if u, res.NearTo, err = nearContextURL(a, x.contexts, x.operator, marker); err != nil {
+				res.Err, res.Verdict = "driver: "+err.Error(), "error"
+				return
+			}
+			res.URL = strings.ReplaceAll(u, "{PLAIN}", w.rec.httpAddr)
+		}
 		_, err = x.loader.LoadDocument(res.URL)
 		if err == nil {
 			res.Verdict = "performed"
@@ -612,10 +712,16 @@ func (w *world) runAuth(c tcase) result {
 
 func (w *world) runJSONLD(c tcase) result {
 	res := result{ID: c.ID, Layer: c.Layer}
-	for _, act := range c.Acts {
+	for n, act := range c.Acts {
 		jl := jsonld.NewJSONLDInstance()
 		cfg := jl.(core.Injectable).Config().(*jsonld.Config)
-		if act.Entry == "with-url" {
+		var operator []string
+		if act.Entry == "with-url" && len(act.Operator) > 0 {
+			for _, o := range act.Operator {
+				operator = append(operator, strings.ReplaceAll(o, "{PLAIN}", w.rec.httpAddr))
+			}
+			cfg.Contexts.RemoteAllowList = append(append([]string{}, cfg.Contexts.RemoteAllowList...), operator...)
+		} else if act.Entry == "with-url" {
 			// the operator's allow-list holds one extra URL: the "listed" one (never the unlisted URL under test)
 			extra := "http://" + w.rec.httpAddr + "/ctx/an-allow-listed-context.jsonld"
 			if act.Arg == "listed" {
@@ -628,7 +734,8 @@ func (w *world) runJSONLD(c tcase) result {
 			return res
 		}
 		res.Accepted, res.Phase = true, "running"
-		res.Acts = append(res.Acts, w.perform(act, actors{loader: jl.DocumentLoader(), strict: c.Vec.Strict}))
+		res.Acts = append(res.Acts, w.perform(act, actors{loader: jl.DocumentLoader(), strict: c.Vec.Strict, id: c.ID, n: n,
+			contexts: cfg.Contexts, operator: operator}))
 	}
 	return res
 }
@@ -715,7 +822,9 @@ func (w *world) runSystem(c tcase) (res result) {
 	add("auth.irma.schememanager", v.Irma)
 	add("didmethods", strings.Split(v.DID, ","))
 	listed := "http://" + w.rec.httpAddr + "/ctx/listed-" + c.ID + ".jsonld"
-	add("jsonld.contexts.remoteallowlist", append(append([]string{}, jsonld.DefaultContextConfig().RemoteAllowList...), listed))
+	// the operator's additions to the allow-list: a context on the local plain server and a path-less https:// location
+	operator := []string{listed, "https://contexts.nuts-verif.nl"}
+	add("jsonld.contexts.remoteallowlist", append(append([]string{}, jsonld.DefaultContextConfig().RemoteAllowList...), operator...))
 	if v.Moved != "" && v.Moved != "none" {
 		add(v.Moved, w.certFile)
 	}
@@ -863,7 +972,13 @@ func (w *world) runSystem(c tcase) (res result) {
 		return res
 	}
 	x := actors{notary: as.ContractNotary(), loader: jl.DocumentLoader(), iam: as.IAMClient(), rp: as.RelyingParty(), strict: v.Strict,
-		early: early, services: servicesByURL, id: c.ID}
+		early: early, services: servicesByURL, id: c.ID, operator: operator}
+	if jcfg, ok := jl.(core.Injectable).Config().(*jsonld.Config); ok {
+		x.contexts = jcfg.Contexts
+	} else {
+		res.Error = "jsonld engine configuration not accessible"
+		return res
+	}
 	x.vdr, _ = system.FindEngineByName("vdr").(vdr.VDR)
 	x.vcr, _ = system.FindEngineByName("vcr").(vcr.VCR)
 	x.discovery, _ = system.FindEngineByName("discovery").(discovery.Server)
